@@ -102,9 +102,17 @@ Alone == {W("normal", y, <<>>, <<>>, <<>>, <<>>, "", "") : y \in YearSels}
 T1 == <<Sp(Fx(600), Fx(720))>>
 T2 == <<Sp(Fx(1320), Fx(120))>>
 D1 == <<WdP(0, 4)>>
-\* a single year directly followed by a month selector would denote a month with year: only
-\* unambiguous year selectors are combined with month / date selectors
-YearsForCombos == {<<Y(2020, 2022, 1, FALSE)>>, <<Y(2020, 9999, 1, TRUE)>>, <<Y(2020, 2030, 2, FALSE)>>}
+\* a single year directly followed by a month selector would denote a month with year: ShowWide writes such a
+\* year selector as the range 2024-2024 (the only spelling of that AST)
+YearsForCombos == {<<Y(2020, 2022, 1, FALSE)>>, <<Y(2020, 9999, 1, TRUE)>>, <<Y(2020, 2030, 2, FALSE)>>,
+                   <<Y(2024, 2024, 1, FALSE)>>, <<Y(2020, 2020, 1, FALSE), Y(2025, 2026, 1, FALSE)>>}
+\* year selector x dates whose meaning depends on which of the two the year belongs to
+YearDates == {W("normal", y, m, <<>>, d, <<>>, "", "") :
+                y \in {<<Y(2024, 2024, 1, FALSE)>>, <<Y(9999, 9999, 1, FALSE)>>, <<Y(2020, 2020, 1, FALSE), Y(2024, 2024, 1, FALSE)>>},
+                m \in {<<MoR(1, 10, -1), MoR(12, 12, -1)>>, <<DRange(B0(Dt(-1, 12, 25)), B0(Dt(-1, 1, 5)))>>,
+                       <<DSingle(B0(Ea(-1))), MoR(6, 6, -1)>>, <<DSingle(B0(Dt(2025, 1, 1)))>>, <<MoR(3, 3, 2021), MoR(5, 5, -1)>>,
+                       <<DPlus(B0(Dt(-1, 9, 1)))>>},
+                d \in {<<>>, D1}}
 Pairs == {W("normal", <<>>, <<>>, <<>>, d, t, "", "") : d \in WeekdaySels, t \in {T1, T2, <<Sp(Ev("sunrise", 0), Ev("sunset", 0))>>}}
     \cup {W("normal", <<>>, m, <<>>, <<>>, t, "", "") : m \in MonthSels \cup DateSels, t \in {T1, T2}}
     \cup {W("normal", <<>>, m, <<>>, D1, <<>>, "", "") : m \in MonthSels \cup DateSels}
@@ -126,7 +134,7 @@ Modified == {[w EXCEPT !.kindword = kw, !.comment = c] :
                kw \in KindWords, c \in Comments}
             \ {W("normal", <<>>, <<>>, <<>>, <<>>, <<>>, "", "")}
 Edge == {W("normal", <<>>, m, <<>>, <<>>, <<>>, "", "") : m \in LeapFamily}
-SingleRules == Alone \cup Pairs \cup Triples \cup Modified
+SingleRules == Alone \cup Pairs \cup Triples \cup Modified \cup YearDates
 
 Base == {W("normal", <<>>, <<>>, <<>>, D1, T1, "", ""),
          W("normal", <<>>, <<>>, <<>>, <<PH(0)>>, <<>>, "closed", ""),
@@ -136,6 +144,20 @@ Base == {W("normal", <<>>, <<>>, <<>>, D1, T1, "", ""),
 Seqs2 == {<<a, [b EXCEPT !.op = op]>> : a \in Base, b \in Base, op \in {"normal", "additional", "fallback"}}
 Seqs3 == {<<a, [b EXCEPT !.op = op1], [c EXCEPT !.op = op2]>> :
             a \in Base, b \in Base, c \in Base, op1 \in {"normal", "additional", "fallback"}, op2 \in {"normal", "additional", "fallback"}}
+
+\* a rule that ends with its dates (whole day: no time written) followed by an additional rule starting with a date:
+\* the comma + space must be read as the rule separator, never as the continuation of the list of dates
+DatesOnly == {W("normal", <<>>, <<DRange(B0(Dt(-1, 4, 1)), B0(Ea(-1)))>>, <<>>, <<>>, <<>>, "", ""),
+              W("normal", <<>>, <<MoR(1, 1, -1)>>, <<>>, <<>>, <<>>, "", ""),
+              W("normal", <<Y(2020, 2022, 1, FALSE)>>, <<>>, <<>>, <<>>, <<>>, "", ""),
+              W("normal", <<>>, <<>>, <<Wk(1, 10, 1)>>, <<>>, <<>>, "", "")}
+StartsWithDate == {W("additional", <<>>, <<DSingle(B0(Ea(-1)))>>, <<>>, <<>>, T1, "", ""),
+                   W("additional", <<>>, <<DSingle(Bd(Ea(-1), 0, 0, 1))>>, <<>>, <<>>, <<>>, "", ""),
+                   W("additional", <<>>, <<DSingle(B0(Ea(2025)))>>, <<>>, <<>>, <<>>, "unknown", ""),
+                   W("additional", <<>>, <<MoR(6, 8, -1)>>, <<>>, <<>>, T1, "", ""),
+                   W("additional", <<Y(2030, 2030, 1, FALSE)>>, <<>>, <<>>, <<>>, <<>>, "", ""),
+                   W("additional", <<>>, <<>>, <<Wk(20, 20, 1)>>, <<>>, <<>>, "", "")}
+AfterDates == {<<a, b>> : a \in DatesOnly, b \in StartsWithDate}
 
 \* the kind of a rule made of a comment only is left open (OSM: unknown; the repository pins open)
 CommentOnly(w) == ~w.always /\ w.year = <<>> /\ w.monthday = <<>> /\ w.week = <<>> /\ w.weekday = <<>> /\ ~w.written_time
@@ -149,6 +171,7 @@ Accepted == {Case(<<w>>, v) : w \in SingleRules, v \in Variants}
        \cup {[Case(<<w>>, Canonical) EXCEPT !.family = "edge"] : w \in Edge}
        \cup {Case(ws, v) : ws \in Seqs2, v \in SmallVariants}
        \cup {Case(ws, Canonical) : ws \in Seqs3}
+       \cup {Case(ws, v) : ws \in AfterDates, v \in SmallVariants}
 
 \* --- single-field corruptions and unsupported constructs -----------------------------
 Rejected == {"", " ", "25:00-26:00", "24:01-25:00", "10:60-12:00", "10:00-12:60", "10:00-49:00", "10:00-48:01", "Jan 0", "Jan 00",
